@@ -121,7 +121,13 @@ class CompositeMove(Generic[MoveType]):
         removed_indices : IntegerArray
             The indices of the atoms to remove.
         """
+        notified: set[int] = set()
+
         for move in self.moves:
+            if id(move) in notified:
+                continue
+
+            notified.add(id(move))
             move.on_atoms_changed(added_indices, removed_indices)
 
     def on_cell_changed(self, new_cell: Cell) -> None:
